@@ -574,6 +574,10 @@ func (c *HTTPClient) Membership(key []byte, version *uint64) (*balloon.Membershi
 	if err != nil {
 		return nil, err
 	}
+	if result == nil {
+		// the server is not trusted: "null" is valid JSON
+		return nil, fmt.Errorf("the server answered without a membership proof")
+	}
 
 	proof := protocol.ToBalloonProof(result, c.hasherF)
 	return proof, nil
@@ -603,6 +607,10 @@ func (c *HTTPClient) MembershipDigest(keyDigest hashing.Digest, version *uint64)
 	err = json.Unmarshal(body, &result)
 	if err != nil {
 		return nil, err
+	}
+	if result == nil {
+		// the server is not trusted: "null" is valid JSON
+		return nil, fmt.Errorf("the server answered without a membership proof")
 	}
 
 	proof := protocol.ToBalloonProof(result, c.hasherF)
@@ -694,7 +702,14 @@ func (c *HTTPClient) Incremental(start, end uint64) (*balloon.IncrementalProof, 
 	}
 
 	var response *protocol.IncrementalResponse
-	_ = json.Unmarshal(body, &response)
+	err = json.Unmarshal(body, &response)
+	if err != nil {
+		return nil, err
+	}
+	if response == nil {
+		// the server is not trusted: "null" is valid JSON
+		return nil, fmt.Errorf("the server answered without an incremental proof")
+	}
 
 	proof := protocol.ToIncrementalProof(response, c.hasherF)
 	return proof, nil
